@@ -361,6 +361,48 @@ func onAllPathsVia(g *ssax.Graph, at ssa.Instruction, anchor ssa.Value, match fu
 			return true
 		}
 	}
+	// A dominating fact about a merged boolean ("ok := A || B; if !ok { continue }"): every path to
+	// `at` enters the merge block a last time, over some edge, and on that edge the merged value is
+	// the edge's value. The fact holds on every path if, for each incoming edge, the edge's value makes
+	// the matching fact, or contradicts the known value (edge not taken), or the paths to it hold.
+	for _, f := range g.FactsAt(b) {
+		cond, val := stripNotB(f.Cond, f.Val)
+		phi, ok := cond.(*ssa.Phi)
+		if !ok || phi.Block() == nil {
+			continue
+		}
+		j := phi.Block()
+		all := len(j.Preds) > 0
+		for k, pb := range j.Preds {
+			if !g.Reach[pb.Index] {
+				continue
+			}
+			e, ev := stripNotB(phi.Edges[k], val)
+			if kb, isK := ssax.ConstBool(e); isK {
+				if kb != ev {
+					continue // this edge cannot have been the one taken
+				}
+			} else if match(ssax.Fact{Cond: e, Val: ev}) {
+				continue
+			}
+			found := false
+			for _, ef := range factsOnEdge(g, pb, j) {
+				if match(ef) {
+					found = true
+				}
+			}
+			if found || (via != nil && via(pb.Index)) {
+				continue
+			}
+			if pb.Index == anchorBlock || !holds(pb.Index) {
+				all = false
+				break
+			}
+		}
+		if all {
+			return true
+		}
+	}
 	return holds(b)
 }
 
@@ -553,6 +595,17 @@ func isBuiltinCall(c *ssa.Call, name string) bool {
 	return ok && b.Name() == name
 }
 
+// stripNotB removes leading negations, flipping the truth value accordingly.
+func stripNotB(v ssa.Value, val bool) (ssa.Value, bool) {
+	for {
+		u, ok := v.(*ssa.UnOp)
+		if !ok || u.Op != token.NOT {
+			return v, val
+		}
+		v, val = u.X, !val
+	}
+}
+
 func stripNotV(v ssa.Value) ssa.Value {
 	for {
 		u, ok := v.(*ssa.UnOp)
@@ -647,7 +700,80 @@ func afterFirst(v ssa.Value) (x ssa.Value, sep string, ok bool) {
 // constBytes returns the contents of a package-level []byte("...") variable
 // that is never reassigned, or "".
 func constBytes(v ssa.Value) string {
-	return ""
+	u, ok := v.(*ssa.UnOp)
+	if !ok || u.Op != token.MUL {
+		return ""
+	}
+	gl, ok := u.X.(*ssa.Global)
+	if !ok || gl.Pkg == nil {
+		return ""
+	}
+	val, stores := "", 0
+	var visit func(f *ssa.Function)
+	visit = func(f *ssa.Function) {
+		for _, b := range f.Blocks {
+			for _, i := range b.Instrs {
+				if st, isSt := i.(*ssa.Store); isSt && st.Addr == ssa.Value(gl) {
+					stores++
+					if cv, isCv := st.Val.(*ssa.Convert); isCv {
+						if k, isK := ssax.ConstString(cv.X); isK {
+							val = k
+						}
+					}
+				}
+				// the address escaping (&newline) would allow writes we do not see
+				for _, op := range i.Operands(nil) {
+					if *op == ssa.Value(gl) {
+						switch x := i.(type) {
+						case *ssa.Store:
+							if x.Addr != ssa.Value(gl) {
+								stores += 2
+							}
+						case *ssa.UnOp:
+							// a load: its elements must not be stored to
+							if rs := x.Referrers(); rs != nil {
+								for _, r := range *rs {
+									if ia, isIA := r.(*ssa.IndexAddr); isIA {
+										if rr := ia.Referrers(); rr != nil {
+											for _, q := range *rr {
+												if st, isSt := q.(*ssa.Store); isSt && st.Addr == ssa.Value(ia) {
+													stores += 2
+												}
+											}
+										}
+									}
+								}
+							}
+						default:
+							stores += 2
+						}
+					}
+				}
+			}
+		}
+		for _, a := range f.AnonFuncs {
+			visit(a)
+		}
+	}
+	for _, m := range gl.Pkg.Members {
+		switch x := m.(type) {
+		case *ssa.Function:
+			visit(x)
+		case *ssa.Type:
+			for _, T := range []types.Type{x.Type(), types.NewPointer(x.Type())} {
+				ms := gl.Pkg.Prog.MethodSets.MethodSet(T)
+				for k := 0; k < ms.Len(); k++ {
+					if fn := gl.Pkg.Prog.MethodValue(ms.At(k)); fn != nil && fn.Pkg == gl.Pkg {
+						visit(fn)
+					}
+				}
+			}
+		}
+	}
+	if stores != 1 {
+		return ""
+	}
+	return val
 }
 
 // hasPrefixTest recognises a boolean that is true exactly when x starts with s.
@@ -730,17 +856,34 @@ func withoutSuffix(v ssa.Value) (x ssa.Value, s string, ok bool) {
 	if c, isC := v.(*ssa.Call); isC {
 		switch ssax.CalleeName(&c.Call) {
 		case "strings.TrimSuffix", "bytes.TrimSuffix":
-			if k, isK := ssax.ConstString(c.Call.Args[1]); isK {
+			if k, isK := constText(c.Call.Args[1]); isK {
 				return c.Call.Args[0], k, true
 			}
 		}
 	}
 	if c, idx, ok := cutCall(v, "CutSuffix"); ok && idx == 0 {
-		if k, isK := ssax.ConstString(c.Call.Args[1]); isK {
+		if k, isK := constText(c.Call.Args[1]); isK {
 			return c.Call.Args[0], k, true
 		}
 	}
 	return nil, "", false
+}
+
+// constText: a constant string, a []byte conversion of one, or a package-level []byte
+// variable holding one that is never changed.
+func constText(v ssa.Value) (string, bool) {
+	if k, ok := ssax.ConstString(v); ok {
+		return k, true
+	}
+	if cv, ok := v.(*ssa.Convert); ok {
+		if k, ok := ssax.ConstString(cv.X); ok {
+			return k, true
+		}
+	}
+	if k := constBytes(v); k != "" {
+		return k, true
+	}
+	return "", false
 }
 
 // uncountedExits lists the edges by which a loop can be left other than by
@@ -786,4 +929,47 @@ func elementLoops(g *ssax.Graph, isSeq func(ssa.Value) bool) []natLoop {
 		}
 	}
 	return out
+}
+
+// decimalText recognises v as the base-10 text of an integer x: strconv.FormatInt(x, 10),
+// strconv.Itoa(int(x)), fmt.Sprintf("%d", x), fmt.Sprint(x), or a []byte conversion of one of these.
+func decimalText(v ssa.Value) (x ssa.Value, ok bool) {
+	v = ssax.Strip(v)
+	if cv, isCv := v.(*ssa.Convert); isCv {
+		return decimalText(cv.X)
+	}
+	c, isC := v.(*ssa.Call)
+	if !isC {
+		return nil, false
+	}
+	unconv := func(a ssa.Value) ssa.Value {
+		a = ssax.Strip(a)
+		if cv, isCv := a.(*ssa.Convert); isCv {
+			if b, isB := cv.X.Type().Underlying().(*types.Basic); isB && b.Info()&types.IsInteger != 0 {
+				return ssax.Strip(cv.X)
+			}
+		}
+		return a
+	}
+	switch ssax.CalleeName(&c.Call) {
+	case "strconv.FormatInt":
+		if k, isK := ssax.ConstInt(c.Call.Args[1]); isK && k == 10 {
+			return unconv(c.Call.Args[0]), true
+		}
+	case "strconv.Itoa":
+		return unconv(c.Call.Args[0]), true
+	case "fmt.Sprintf":
+		if isConstStr("%d")(c.Call.Args[0]) {
+			if el := variadicElems(c.Call.Args[1]); len(el) == 1 {
+				return unconv(el[0]), true
+			}
+		}
+	case "fmt.Sprint":
+		if el := variadicElems(c.Call.Args[0]); len(el) == 1 {
+			if b, isB := ssax.Strip(el[0]).Type().Underlying().(*types.Basic); isB && b.Info()&types.IsInteger != 0 {
+				return unconv(el[0]), true
+			}
+		}
+	}
+	return nil, false
 }
